@@ -81,8 +81,9 @@ ReqCertC02(a, o) ==
   <<"C02.crldp_iff_requested",    Count(x, OidCrlDp) = (IF WantCrlDp(p) THEN 1 ELSE 0)>>,
   <<"C02.crldp_value_eq",    Has(x, OidCrlDp) /\ WantCrlDp(p) =>
                                Ext(x, OidCrlDp).kind = "crldp" /\ Ext(x, OidCrlDp).dps = ExpCrlDps(p.crldp)>>,
-  <<"C02.aki_iff_requested",      Count(x, OidAki) = (IF WantAki(p) THEN 1 ELSE 0)>>,
-  <<"C02.aki_value_eq",      Has(x, OidAki) /\ WantAki(p) =>
+  (* a caller may hand in an extension of his own under the OID of the authority key identifier (it is written as given) *)
+  <<"C02.aki_iff_requested",      Count(x, OidAki) = (IF WantAki(p) THEN 1 ELSE 0) + (IF OidAki \in CustomOids(p) THEN 1 ELSE 0)>>,
+  <<"C02.aki_value_eq",      Has(x, OidAki) /\ WantAki(p) /\ OidAki \notin CustomOids(p) =>
                                /\ Ext(x, OidAki).kind = "aki"
                                /\ Ext(x, OidAki).id = [k |-> "some", b |-> KeyId(a.issuer.kid, a.signerKey)]
                                /\ Ext(x, OidAki).n = 1>>,
@@ -137,7 +138,7 @@ ReqCertC05(a, o) ==
   <<"C05.nc_critical",            Has(x, OidNc) => Ext(x, OidNc).crit>>,
   <<"C05.empty_nc_omitted",       p.nc.k = "some" /\ p.nc.perm = <<>> /\ p.nc.excl = <<>> => ~Has(x, OidNc)>>,
   <<"C05.key_ids_noncritical",    /\ Has(x, OidSki) => ~Ext(x, OidSki).crit
-                                  /\ Has(x, OidAki) => ~Ext(x, OidAki).crit>>,
+                                  /\ Has(x, OidAki) /\ OidAki \notin CustomOids(p) => ~Ext(x, OidAki).crit>>,
   <<"C05.no_duplicate_own_oid",    \A oid \in OwnOids : Count(x, oid) <= 1>>,
   <<"C05.exts_nonempty_if_present",    o.hasExts => x # <<>>>>
   }
